@@ -145,9 +145,9 @@ def lehmerExtFrontier (lhs rhs : Nat) : Nat × Nat × Bool :=
 
 /-- `gcd_ext_large` for `lhs > rhs` with the kernel as a parameter: post-processing
     `a = (g − rhs·b) / lhs` by one multiplication and one exact division.
-    (The code calls `div_rem_unshifted_in_place(residue, lhs)`, whose precondition
-    `residue.len() ≥ lhs.len()` fails when the residue is short, i.e. zero — see `Props/C12`;
-    here the quotient of the shorter residue is the `0` the property requires.) -/
+    (A residue with fewer words than `lhs` is zero and gives `a = 0` — since /repo 413052e the code
+    tests for it; before, it called `div_rem_unshifted_in_place(residue, lhs)` whose precondition
+    `residue.len() ≥ lhs.len()` then failed, see `gcdExtPostPre` and the regression theorem.) -/
 def gcdExtPost (lhs rhs : Nat) (k : Nat × Nat × Bool) : Nat × Int × Int :=
   let (g, bMag, bNeg) := k
   let residue := if bNeg then rhs * bMag + g else rhs * bMag - g
@@ -164,7 +164,7 @@ def gcdExtLarge (kernel : Nat → Nat → Nat × Nat × Bool) (lhs rhs : Nat) : 
     let (g, a, b) := gcdExtPost rhs lhs (kernel rhs lhs)
     (g, b, a)
 
-/-- does the code's division precondition hold?  `residue` has `rhs_len + b_len + 1` words -/
+/-- did the division precondition of the code before /repo 413052e hold?  `residue` has `rhs_len + b_len + 1` words -/
 def gcdExtPostPre (W : Nat) (lhs rhs : Nat) (k : Nat × Nat × Bool) : Bool :=
   wordLen W rhs + wordLen W k.2.1 + 1 ≥ wordLen W lhs
 
